@@ -136,6 +136,20 @@ CLAIMS.update({
    technique='contract-based deductive verification of the sequence structure over symbolic content + bounded reference-decoder stand-in for fit / parity / reassembly',
    design='4/C08'),
 })
+CLAIMS.update({
+ 'C16': dict(
+   category='proof',
+   text='Deductive for ALL string values: the WIFI, MeCard, vCard and mailto builders are executed with every user value an opaque text token; the resulting '
+        'rope is proved to have the documented field structure and every user value is embedded only through the escape function of the format '
+        '(percent-encoding for mailto subject/body); per-character escape lemmas over the real tables (no unescaped separator, image unescapes to the character, '
+        'vCard images contain no line break); the make_* factories are make_qr of their payload with all arguments forwarded; EPC: level M, no boosting, 331 bytes fit 13-M. '
+        'BOUNDED (labelled): real payloads on an adversarial value grid parsed back by independent parsers (WIFI, MeCard, vCard, geo, mailto, EPC layout / amount / '
+        'charset / limits, EPC symbol level and version, factory symbol decodes to the payload). One known finding (comma in MeCard address parts).',
+   note='Trusted: pyvc opaque-text interpreter; axiom that str.translate maps characters independently; urllib.parse.quote; spec/payloads.py parsers for the bounded clauses. '
+        'geo and EPC clauses are bounded only.',
+   technique='contract-based deductive verification of string builders over opaque text tokens (structure / taint obligations + per-character escape lemmas); bounded independent-parser stand-in',
+   design='4/C16'),
+})
 NOT_YET = {
 }
 ALL = ['C%02d' % i for i in range(1, 17)]
